@@ -21,6 +21,8 @@ def checkCase (j : Json) : Except String Verdict := do
   | [a, b] => if a == b then v := v.mon "C02" "sealing_twice_differs" 0
   | _ => pure ()
   if (← jstr j "openOtherKey") != "err" then v := v.mon "C02" "opens_under_other_key" 0
+  if ((j.getObjVal? "openHalfKey").toOption.bind (·.getStr?.toOption)).getD "err" != "err" then
+    v := v.mon "C02" "opens_under_other_key" 0 "a secret differing only in its second half"
   let rn := (j.getObjVal? "repeatN").toOption.bind (·.getNat?.toOption) |>.getD 0
   let rd := (j.getObjVal? "repeatDistinct").toOption.bind (·.getNat?.toOption) |>.getD 0
   if rn != rd then
